@@ -88,7 +88,7 @@ func (h *Authorization) Unmarshal(v base.HeaderValue) error {
 
 		h.Username, h.BasicPass = user, pass
 	} else { // digest
-		kvs, err := keyValParse(v0, ',')
+		keys, kvs, err := keyValParseOrdered(v0, ',')
 		if err != nil {
 			return err
 		}
@@ -99,7 +99,8 @@ func (h *Authorization) Unmarshal(v base.HeaderValue) error {
 		uriReceived := false
 		responseReceived := false
 
-		for k, rv := range kvs {
+		for _, k := range keys {
+			rv := kvs[k]
 			v := rv
 
 			switch k {
